@@ -536,12 +536,12 @@ fn main() {
   ev.probes.declare(&["emitted_output_differs_from_reference", "accepted_programs_compared", "rejected_programs_compared", "ts_output_compared", "rejected_with_errors_in_3_or_more_modules", "diagnostic_listing_3_or_more_names", "module_order_mostly_reversed"]);
   ev.components = json!({
     "real": ["samlang_compiler::compile_sources (parser, checker, HIR/MIR/LIR lowering, optimizer, wasm + TS back ends)", "node >= 22 executing the emitted .wasm.js / .ts"],
-    "simulated": ["hash seeds (libc getrandom seam)", "module enumeration order (allocation order of module references)", "rayon -> simulated worker pool with W workers; preemption between any two temp-name allocations of different jobs (hook H1)"],
+    "simulated": ["hash seeds (libc getrandom seam)", "module enumeration order (allocation order of module references)", "rayon -> simulated worker pool with W workers; preemption at temp-name allocations (hook H1) and, in the edge-instrumented build that ./check C12 uses, after seeded quanta of basic-block edges anywhere in samlang; preempted workers are stalled now and then; a worker that sleeps on a lock held across a preemption is detected and the baton taken back"],
     "stubbed": ["cli/main.rs file collection and output writing (the harness allocates module references and writes the outputs itself)"]
   });
   ev.assumptions = vec![
     "V8 / node is trusted to execute the emitted modules faithfully".into(),
-    "preemption happens before each temp-counter access, not inside it (a load/store split of fetch_add would not be seen)".into(),
+    "one simulated worker executes at a time: interleavings are at basic-block granularity, memory-model races (torn or reordered accesses) are not visible".into(),
     "the rayon facade preserves rayon's contract (independent jobs, order-preserving collect) and over-approximates its schedules".into(),
   ];
 
